@@ -907,3 +907,25 @@ pub fn check_image(b: &[u8]) -> Report {
     r.refs = refs;
     r
 }
+
+
+/// stored refcount of host cluster index `c` in image bytes (0 when not covered)
+pub fn stored_refcount(b: &[u8], c: u64) -> Option<u64> {
+    let h = parse_header(b).ok()?;
+    let cb = h.cluster_bits;
+    let cs = 1usize << cb;
+    let (_, _, rbe) = geometry(cb, h.refcount_order);
+    let ri = (c as usize) / rbe;
+    if ri * 8 + 8 > (h.rt_clusters as usize) << cb {
+        return Some(0);
+    }
+    let mut sc = Vec::new();
+    let e = be64(rd(b, h.rt_off + (ri * 8) as u64, 8, &mut sc), 0);
+    let off = e & !0x1ff;
+    if off == 0 {
+        return Some(0);
+    }
+    let mut sc2 = Vec::new();
+    let blk = rd(b, off, cs, &mut sc2);
+    Some(rc_get(blk, h.refcount_order, (c as usize) % rbe))
+}
